@@ -25,7 +25,8 @@
 (*               FALSE: for GET POST PUT DELETE PATCH only (code before the fix)             *)
 EXTENDS UrlPattern, TLC
 
-CONSTANTS QuoteAll, AllMethods
+CONSTANTS QuoteAll, AllMethods,
+          EmptyParam   \* TRUE: the engine's trie lets a {param} stand for an EMPTY segment ("a.com//x"); FALSE: it needs a character
 
 Str(seg) == Join(seg, "")
 StrSeq(segs) == [i \in 1..Len(segs) |-> Str(segs[i])]
@@ -43,7 +44,7 @@ LitTokens(seg) ==
     IF QuoteAll THEN Chars(seg)
     ELSE [i \in 1..Len(seg) |->
             IF seg[i] = "+" THEN [k |-> "plus"]
-            ELSE IF seg[i] = "?" THEN [k |-> "opt"]
+            ELSE IF seg[i] = "*" THEN [k |-> "opt"]      \* (zero or more: for the one-character alphabets here "*" behaves like "?" on the near misses "ab", "b")
             ELSE IF seg[i] \in {"(", "["} THEN [k |-> "err"]
             ELSE [k |-> "c", c |-> seg[i]]]
 
@@ -120,7 +121,9 @@ ProxyModel(it, mc, uc, var) == \E rm \in Registered(it) : Found(Expr(rm, it.pc),
 EngineModel(it, mc, uc, var) ==
     LET p == AsStrings(it.pc)
         u == AsStrings(uc)
-    IN /\ var # "uc"
+        emptyAtParam == \E i \in 1..Len(it.pc.p) : IsParamC(it.pc.p[i]) /\ i <= Len(uc.p) /\ uc.p[i] = <<>>
+    IN /\ var # "uc" \/ it.pc.h = << <<"*">> >>      \* (a catch-all has no host label to compare)
+       /\ EmptyParam \/ ~emptyAtParam
        /\ (IF it.kind = "policy" THEN mc \in it.ms ELSE (it.ms = {} \/ mc \in it.ms))
        /\ IF it.kind = "policy" THEN MatchesX(p, u)
           ELSE \/ MatchesStrictX(p, u)
